@@ -443,7 +443,8 @@ Qed.
 
 Lemma st_create_table_closed s name fds : P s -> P (fst (st_create_table s name fds)).
 Proof.
-  intros H. unfold st_create_table. destruct (names_distinct _); [|exact H]. unfold st_create_table0.
+  intros H. unfold st_create_table. destruct (names_distinct _); [|exact H].
+  destruct (create_bad_rows s name fds); [exact H|]. unfold st_create_table0.
   destruct (rel_offset s name) as [o|e|]; cbn [fst]; try exact H.
   destruct e; cbn [fst]; try exact H.
   pose proof (P_create_page s H) as H1. destruct (create_page s) as [s1 pg]. cbn [fst] in H1.
@@ -485,10 +486,12 @@ Proof.
   - pose proof (st_create_table_closed s name (map fielddef_of cols) H) as H1.
     destruct (st_create_table s name (map fielddef_of cols)) as [s1 [u|e|]]; cbn [fst e_store] in *; try exact H1.
     apply P_flush. exact H1.
-  - pose proof (insert_rows_closed rows s table cols [] 0%nat H) as H1.
+  - destruct (first_err _ rows) as [u|e|]; cbn [e_store]; try exact H.
+    pose proof (insert_rows_closed rows s table cols [] 0%nat H) as H1.
     destruct (insert_rows s table cols rows [] 0) as [[s1 b] o]. exact H1.
   - destruct (existsb _ sets); [exact H|].
     destruct (where_ids s table where_) as [ids|e|]; cbn [e_store]; try exact H.
+    destruct (first_err _ ids) as [u|e|]; cbn [e_store]; try exact H.
     pose proof (update_rows_closed ids s table (map fst sets)
                  (map (fun sv => match snd sv with XLit v => v | _ => VNull end) sets) [] H) as H1.
     destruct (update_rows s table _ _ ids []) as [[s1 b] o]. exact H1.
